@@ -9,6 +9,8 @@ LEAN = os.path.join(VERIF, "lean")
 GEN = os.path.join(LEAN, "AM", "Gen")
 HARNESS = os.path.join(WORK, "verifharness")
 DRIVER = os.path.join(LEAN, ".lake", "build", "bin", "amdriver")
+DAEMON = os.path.join(WORK, "audito-maldito")
+os.environ["VERIF_DAEMON"] = DAEMON
 ALLOWED_AXIOMS = {"propext", "Classical.choice", "Quot.sound"}
 FORBIDDEN = re.compile(r"\bsorry\b|\badmit\b|^axiom |native_decide|bv_decide|implemented_by|\bunsafe |maxHeartbeats 0", re.M)
 
@@ -190,6 +192,12 @@ def prepare(force=False, verbose=False):
                       "-o", HARNESS, "./internal/verifharness"], cwd=REPO, env=GOENV)
         st["harness_ok"] = rc == 0 and os.path.exists(HARNESS)
         st["log"]["harness"] = out[-6000:]
+        # (e) the daemon itself, from the working tree (C08, C10)
+        if os.path.exists(DAEMON):
+            os.remove(DAEMON)
+        rc, out = sh(["go", "build", "-modfile=" + os.path.join(gm, "go.mod"), "-o", DAEMON, "."], cwd=REPO, env=GOENV)
+        st["daemon_ok"] = rc == 0 and os.path.exists(DAEMON)
+        st["log"]["daemon"] = out[-3000:]
         st["prepare_s"] = round(time.time() - t0, 1)
         json.dump(st, open(stamp, "w"), indent=1)
         return st
